@@ -311,7 +311,18 @@ def one_run(seed, run, force_config=None, overrides=None, max_diag=3):
         # contention phase: 2-4 sibling builder calls on ONE shared receiver, one actor each, all enabled at the
         # same instant, tiny quanta - the history in which a check-then-act window inside a builder is hit
         n0 = len(program)
-        ri = g.pick_receiver()
+        # receiver: first a KIND (uniformly among the kinds present, so that rarer builders - set operations, DDL
+        # builders, function terms - get their share of contention runs), then an object of that kind
+        by_kind = {}
+        for i, v in enumerate(env.heap):
+            if is_object_slot(v) and not g.is_mutable(v) and g.methods_of(v):
+                kd = g.kind(v) if g.kind(v) != "term" else "term:" + type(v).__mro__[-4 if len(type(v).__mro__) > 4 else 0].__name__
+                by_kind.setdefault(kd, []).append(i)
+        ri = None
+        if by_kind:
+            kinds = sorted(by_kind)
+            pool = by_kind[kinds[rng.randrange(len(kinds))]]
+            ri = pool[rng.randrange(len(pool))]
         k = 0
         if ri is not None:
             v = g.deref(ri)
